@@ -26,9 +26,17 @@ _ALIASES = {
 SUPPORTED = sorted(set(_ALIASES.values()))
 
 
-def canonical(name):
+def _concrete_name(name):
+    """a concrete encoding name that resolves like the (possibly symbolic) one on this path"""
     if isinstance(name, SymStr):
-        name = name.realise()
+        if name.is_concrete():
+            return name.concrete()
+        return CodecsFacade._sym_lookup_name(name)
+    return name
+
+
+def canonical(name):
+    name = _concrete_name(name)
     try:
         n = _codecs.lookup(name).name
     except LookupError:
@@ -92,6 +100,7 @@ def _remember(b, enc, text_elems, skip):
 
 
 def encode(s, encoding='utf-8', errors='strict'):
+    encoding = _concrete_name(encoding)
     if isinstance(s, str):
         s = SymStr([ord(c) for c in s])
     if s.is_concrete() and not FORCE_MODEL:
@@ -186,6 +195,7 @@ def decode(b, encoding='utf-8', errors='strict', final=True, return_consumed=Fal
     """decode SymBytes; with final=False an incomplete trailing sequence is left unconsumed"""
     if isinstance(b, (bytes, bytearray)):
         b = SymBytes(list(b))
+    encoding = _concrete_name(encoding)
     enc = canonical(encoding)
     if b.is_concrete() and final and not return_consumed and not FORCE_MODEL:
         return b.concrete().decode(encoding, errors)
@@ -475,11 +485,60 @@ class CodecsFacade:
         except LookupError:
             return False
 
+    @staticmethod
+    def _sym_lookup_name(name):
+        """Decide codecs.lookup for a name with <= 2 symbolic characters.  CPython normalises the UTF-8 bytes of the
+        name (_Py_normalize_encoding): ASCII letters, digits and '.' are kept (lower-cased), every other byte is a
+        separator (runs collapse to one '_'), an embedded NUL is a ValueError.  So a symbolic character matters only
+        through: NUL / one of the 63 kept characters (which one) / anything else (all alike, '_' stands for them).
+        Returns a concrete name that resolves exactly like the symbolic one on this path."""
+        import itertools
+        from .mask import Mask
+        e = eng()
+        pos = [i for i, c in enumerate(name.ch) if not isinstance(c, int)]
+        if len(pos) > 2:
+            raise Unsupported('codecs.lookup of an encoding name with more than 2 symbolic characters')
+        kept = Mask.of('0123456789abcdefghijklmnopqrstuvwxyzABCDEFGHIJKLMNOPQRSTUVWXYZ.')
+        cls = {}
+        for i in pos:
+            c = name.ch[i]
+            if e.branch(c == 0):
+                raise ValueError('embedded null character')
+            cls[i] = 'kept' if e.branch(kept.formula(c)) else 'sep'
+        base = [c if isinstance(c, int) else ord('_') for c in name.ch]
+        keptpos = [i for i in pos if cls[i] == 'kept']
+        if not keptpos:
+            return ''.join(map(chr, base))
+        alphabet = [ord(x) for x in '0123456789abcdefghijklmnopqrstuvwxyzABCDEFGHIJKLMNOPQRSTUVWXYZ.']
+        good = []
+        for combo in itertools.product(alphabet, repeat=len(keptpos)):
+            cand = list(base)
+            for i, v in zip(keptpos, combo):
+                cand[i] = v
+            text = ''.join(map(chr, cand))
+            try:
+                _codecs.lookup(text)
+            except LookupError:
+                continue
+            good.append((combo, text))
+        for combo, text in good:
+            if e.branch(z3.And(*[name.ch[i] == v for i, v in zip(keptpos, combo)])):
+                return text
+        # none of the resolving spellings: any representative of the rest fails alike
+        for combo in itertools.product(alphabet, repeat=len(keptpos)):
+            if all(combo != g[0] for g in good):
+                cand = list(base)
+                for i, v in zip(keptpos, combo):
+                    cand[i] = v
+                return ''.join(map(chr, cand))
+        raise Unsupported('codecs.lookup: every spelling resolves')
+
     def lookup(self, name):
         if isinstance(name, SymStr):
             if not name.is_concrete():
-                raise Unsupported('codecs.lookup of a symbolic encoding name')
-            name = name.concrete()
+                name = CodecsFacade._sym_lookup_name(name)
+            else:
+                name = name.concrete()
         info = _codecs.lookup(name)
         if active() and self._modelled(name):
             return _ModelInfo(info, name, self)
